@@ -518,7 +518,90 @@ def explore_sp_special(case):
             if stray or got.shape != want.shape or np.max(np.abs(got - want)) > 1e-12:
                 res.fail(site="casadi_to_sympy", clause="symbol_table_consistent", cls="matrix_with_table", detail=dict(matrix=tag, names=list(names), stray_symbols=stray, converted=got, source=want),
                          sub="special", case=case)
-    res.samples.append(dict(special="matrices (both directions, dense and sparse, with a caller's table), cse, f_dict, shared tables"))
+    # names.  (i) a user function may be called anything, in particular something that is a fragment of a built-in's name;
+    # (ii) the caller's variables may be called like the temporaries of sympy.cse or like anything else;  (iii) in the reverse
+    # direction two different sub-expressions may PRINT alike (constants agreeing to six digits, two symbols of the same name)
+    builtins_ = ["sin", "cos", "tan", "asin", "acos", "atan", "atan2", "exp", "log", "sqrt", "Abs", "sign", "Pow", "Add", "Mul", "Max", "Min"]
+    fn_names = sorted({b[i:j] for b in builtins_ for i in range(len(b)) for j in range(i + 1, min(len(b), i + 3) + 1)} - set(builtins_)) + ["f", "sinc2", "my_sin", "cosine"]
+    for nm in fn_names:
+        if not nm.isidentifier():
+            continue
+        res.count("evaluations")
+        res.nontrivial.add(hash(("fn_name", nm)))
+        uf = sympy.Function(nm)
+        src = uf(X) * 2 + Y
+        try:
+            with contextlib.redirect_stdout(io.StringIO()):
+                e_ca, symbols = S.sympy_to_casadi(src, f_dict={nm: lambda a_: 3 * a_ + 1})
+            fx = ca.Function("f", [symbols.get("x", ca.SX.sym("x")), symbols.get("y", ca.SX.sym("y"))], [ca.SX(e_ca)])
+        except Exception as ex:
+            res.fail(site="sympy_to_casadi", clause="user_function_map_is_applied", cls="raises", detail=dict(function_name=nm, error="%s: %s" % (type(ex).__name__, str(ex)[:200])), sub="special", case=case)
+            continue
+        for xv, yv in ((0.5, 2.0), (-1.25, 3.75)):
+            got = float(np.array(fx(xv, yv)).reshape(-1)[0])
+            want = 2 * (3 * xv + 1) + yv
+            if not abs(got - want) <= 1e-12 * max(1, abs(want)):
+                res.fail(site="sympy_to_casadi", clause="user_function_map_is_applied", cls="value", detail=dict(function_name=nm, x=xv, y=yv, converted=got, source=want), sub="special", case=case)
+                break
+    var_names = [("x0", "x1", "x2"), ("x1", "x0", "y"), ("x", "x0", "x10"), ("_x0", "x_0", "x00"), ("a", "t", "n"), ("s", "c", "e"), ("X", "Y", "x"), ("lambda_", "pi_", "Pi"), ("k", "v", "f")]
+    for names in var_names:
+        s0, s1, s2 = [sympy.Symbol(n) for n in names]
+        u_ = (s0 + s1) ** 2 + 1
+        for tag, src, kw in (("plain", sympy.sin(s0) * s1 + s2 ** 2, {}), ("cse", u_ ** 2 + sympy.sin(u_) + s2 * (s0 + s1), dict(cse=True)),
+                             ("cse_no_common", s0 + 2 * s1 - s2, dict(cse=True))):
+            res.count("evaluations")
+            res.nontrivial.add(hash(("var_names", names, tag)))
+            try:
+                with contextlib.redirect_stdout(io.StringIO()):
+                    e_ca, symbols = S.sympy_to_casadi(src, **kw)
+            except Exception as ex:
+                res.fail(site="sympy_to_casadi", clause="symbol_table_consistent", cls="names;raises", detail=dict(names=names, variant=tag, error="%s: %s" % (type(ex).__name__, str(ex)[:200])), sub="special", case=case)
+                continue
+            free = ca.symvar(ca.SX(e_ca))
+            foreign = [v.name() for v in free if not any(ca.is_equal(v, symbols[k]) for k in symbols)]
+            if sorted(symbols) != sorted(names) or foreign:
+                res.fail(site="sympy_to_casadi", clause="symbol_table_consistent", cls="names;" + tag, detail=dict(names=names, table=sorted(symbols), free=[v.name() for v in free], not_in_table=foreign), sub="special", case=case)
+                continue
+            vals = (0.5, 2.0, -1.25)
+            got = float(np.array(ca.Function("f", [symbols[n] for n in names], [ca.SX(e_ca)])(*vals)).reshape(-1)[0])
+            want = float(src.subs(dict(zip((s0, s1, s2), vals))).evalf(20))
+            if not abs(got - want) <= 1e-11 * max(1, abs(want)):
+                res.fail(site="sympy_to_casadi", clause="value_preserved", cls="names;" + tag, detail=dict(names=names, converted=got, source=want), sub="special", case=case)
+    a, b = ca.SX.sym("a"), ca.SX.sym("b")
+    near = [(1234567.25, 1234567.75), (3 + 1e-10, 3.0), (0.12345671, 0.12345679), (1e-10, 1.00000001e-10), (-2.5000001, -2.5)]
+    alike = []
+    for c1, c2 in near:
+        for utag, uf_ in (("mul", lambda v, c: v * c), ("add", lambda v, c: v + c), ("sin", lambda v, c: ca.sin(v * c)), ("div", lambda v, c: c / (v + 3)), ("pow", lambda v, c: (v + 3) ** c)):
+            alike.append(("%s;%r;%r" % (utag, c1, c2), uf_(a, c1) - uf_(a, c2) + b * uf_(a, c2), [a, b]))
+    # (two CasADi variables of one name are one SymPy symbol by the property's own wording: "the same symbol name always maps to the same
+    # variable"; not explored)
+    for tag, ex, vars_ in alike:
+        res.count("evaluations")
+        res.nontrivial.add(hash(("alike", tag)))
+        try:
+            with contextlib.redirect_stdout(io.StringIO()):
+                table = {}
+                sm = S.casadi_to_sympy(ex, table)
+        except NotImplementedError:
+            res.count("refused")
+            continue
+        except Exception as ex_:
+            res.fail(site="casadi_to_sympy", clause="value_preserved", cls="alike;raises", detail=dict(expr=tag, error="%s: %s" % (type(ex_).__name__, str(ex_)[:200])), sub="special", case=case)
+            continue
+        fnum = ca.Function("g", vars_, [ex])
+        for av, bv in ((0.7, -1.3), (2.0, 0.5)):
+            want = float(fnum(av, bv))
+            subs = {s_: (av if str(s_) == "a" else bv) for s_ in sm.free_symbols}
+            try:
+                got = float(sympy.N(sm.subs(subs), 30))
+            except Exception:
+                got = float("nan")
+            # the source is evaluated in double by CasADi, the result in 30 digits: the comparison allows the double rounding of the source
+            tol = 1e-9 * abs(want) + 4e-16 * max(abs(c) for c in (1.0,) + tuple(float(x) for x in tag.split(";")[1:3] if x)) * 10
+            if not (math.isfinite(got) and abs(got - want) <= tol):
+                res.fail(site="casadi_to_sympy", clause="value_preserved", cls="alike;" + tag.split(";")[0], detail=dict(expr=tag, a=av, b=bv, converted=got, source=want, sympy=str(sm)[:200]), sub="special", case=case)
+                break
+    res.samples.append(dict(special="matrices (both directions, dense and sparse, with a caller's table), cse, f_dict, shared tables, names, alike-printing sub-expressions"))
     return res
 
 
